@@ -14,12 +14,22 @@ model functions `splitGuard`, `joinGuard`, `wrapGuard` ∧ `wrapBuilds`, `liftGu
 Structure2.lean, StructEdit.lean) are evaluated by the
 driver at every approved edit: approved ∧ guard ⇒ the real edit succeeded (a mismatch otherwise).  Aimed schemas
 (`AIMED`, outside the family: approval without the guard is known not to be enough there) make the guards bite.
+Insertion ties (lean/Driver/ExtIns.lean, op `insGuard`; Props/C12.lean `insertPoint_insert_applies`,
+`dropPoint_drop_applies_closed`, `joinPoint_canJoin`): at every answer of the real `insert_point` / `drop_point` /
+`join_point` the real edit is performed (`tr.insert(p, node)`, `tr.replace(p, p, slice)`, `tr.join(p)`) and the theorem's
+guards are evaluated by the model: guards true ⇒ the real edit succeeded, `check()` passed and (insert, drop) the one
+recorded step is `ReplaceStep(p, p, slice)` (relational); the guard parts with a Python counterpart are compared exactly
+(`boundary` = `resolve(p).text_offset == 0`, `marks` = the parent of `p` allows the node's marks, `trivial` = the real
+`fits_trivially`, `pass1` = the first pass of `drop_point` re-run on the real `can_replace`, `canJoin` = the real
+`can_join` at the join point, which must be `True`).  A marked copy of the inserted node and an aimed schema
+(`insert-inside-text`, content `image? text* image`) make the guards bite.
 Search: approve ⇒ perform ⇒ `check()` ∧ leaf/text sequence equal; helpers never die with an internal
 error and return in-range results; for random schemas only "a performed edit that returns is valid
 and keeps the leaf sequence".
 """
 from prosemirror.model import Fragment, Slice
 from prosemirror.transform import ReplaceStep, Transform
+from prosemirror.transform.replace import fits_trivially
 from prosemirror.transform.structure import (
     can_change_type,
     can_join,
@@ -85,6 +95,10 @@ def aimed():
                 "p": {"content": "(text|image) span1 (text|image) | (text|image) span2 (text|image) (text|image)"},
                 "span1": {"inline": True, "content": "(span2|image) text*"}, "span2": {"inline": True, "content": "text*"},
                 "image": {"inline": True}, "text": {"inline": True}}}), "lift-unstable"),
+            # `insert_point` / `drop_point` inside a text child test "in front of the text", the insertion goes between its halves
+            schemas.SchemaInfo(Schema({"nodes": {
+                "doc": {"content": "p+"}, "p": {"content": "image? text* image"},
+                "image": {"inline": True}, "text": {"inline": True}}, "marks": {"em": {}}}), "insert-inside-text"),
         ]
     return _AIMED
 
@@ -153,6 +167,20 @@ def run(ctx):
                 elif g not in (True, False):
                     ctx.mismatch(op, replay, "a boolean guard", out)
                 continue
+            if op.startswith("insguard "):
+                g = out.get("ok")
+                ctx.count(f"{op}: guards={g} edit {'succeeded' if exp['good'] else 'failed'}")
+                if g not in (True, False):
+                    ctx.mismatch(op, replay, "a boolean guard", out)
+                elif g and not (exp["good"] and exp.get("exact", True)):
+                    ctx.mismatch(op, replay, "guards hold ⇒ the real edit succeeds, check() passes, the step is ReplaceStep(p, p, slice)",
+                                 f"guards hold; real edit: {exp}")
+                for key in ("boundary", "marks", "trivial", "pass1", "canJoin"):
+                    if key in exp and exp[key] is not None and out.get(key) != exp[key]:
+                        ctx.mismatch(op + " " + key, replay, exp[key], out.get(key))
+                if op == "insguard join" and exp.get("canJoin") != {"ok": True}:
+                    ctx.mismatch(op + " joinPoint_canJoin", replay, "can_join is True at a join point", exp.get("canJoin"))
+                continue
             if op.startswith("builder-fails"):
                 if out != exp:
                     ctx.mismatch(op, replay, exp, out if "err" in out else "model: the built step applies")
@@ -173,6 +201,64 @@ def run(ctx):
         """the guard of the "approved edit applies" theorem of this kind, evaluated by the model at an approved edit"""
         reqs.append(dict(fields, op="structGuard", k=kind, s=info.lean_id, doc=info.node(d)))
         metas.append(("guard " + kind, replay, bool(succeeded)))
+
+    import random as _random
+    rng2 = _random.Random(ctx.seed * 7919 + 12)     # own stream: the case stream of the older checks stays as it was
+
+    def ins_tie(info, d, ip, node, replay):
+        """`insertPoint_insert_applies` at an answer `ip` of the real insert_point: tr.insert(ip, node) vs the guards"""
+        sl = Slice(Fragment.from_(node), 0, 0)
+        tr = Transform(d)
+        sta, val, added = ops.run_op(tr, lambda t: t.insert(ip, node))
+        if sta == "hang":
+            return
+        good = sta == "ok" and outcome(tr.doc.check)[0] == "ok"
+        exact = good and len(tr.steps) == 1 and tr.steps[0].to_json() == ReplaceStep(ip, ip, sl).to_json()
+        rp = d.resolve(ip)
+        stf, ft = outcome(lambda: fits_trivially(rp, rp, sl))
+        reqs.append({"op": "insGuard", "k": "insert", "s": info.lean_id, "doc": info.node(d), "p": ip, "node": info.node(node)})
+        metas.append(("insguard insert", dict(replay, point=ip, node=node.to_json(), real=str(val)[:120] if sta != "ok" else "ok"),
+                      {"good": good, "exact": exact, "boundary": rp.text_offset == 0,
+                       "marks": bool(rp.parent.type.allows_marks(node.marks)), "trivial": bool(ft) if stf == "ok" else None}))
+
+    def drop_pass1(d, pos, sl):
+        """the first pass of drop_point, re-run on the real can_replace"""
+        r = d.resolve(pos)
+        content = sl.content
+        for _ in range(sl.open_start):
+            content = content.first_child.content
+        for dd in range(r.depth, -1, -1):
+            bias = 0 if dd == r.depth else (-1 if 2 * r.pos <= r.start(dd + 1) + r.end(dd + 1) else 1)
+            ipos = r.index(dd) + (1 if bias > 0 else 0)
+            if r.node(dd).can_replace(ipos, ipos, content):
+                return r.pos if bias == 0 else r.before(dd + 1) if bias < 0 else r.after(dd + 1)
+        return None
+
+    def drop_tie(info, d, pos, dp, sl, replay, sta, tr):
+        """`dropPoint_drop_applies_closed` at an answer `dp` of the real drop_point: tr.replace(dp, dp, sl) vs the guards"""
+        if sta == "hang":
+            return
+        good = sta == "ok" and outcome(tr.doc.check)[0] == "ok"
+        exact = good and len(tr.steps) == 1 and tr.steps[0].to_json() == ReplaceStep(dp, dp, sl).to_json()
+        rp = d.resolve(dp)
+        stf, ft = outcome(lambda: fits_trivially(rp, rp, sl))
+        st1, p1 = outcome(lambda: drop_pass1(d, pos, sl))
+        reqs.append({"op": "insGuard", "k": "drop", "s": info.lean_id, "doc": info.node(d), "p": dp, "pos": pos, "slice": info.slice(sl)})
+        metas.append(("insguard drop", dict(replay, point=dp),
+                      {"good": good, "exact": exact, "boundary": rp.text_offset == 0,
+                       "trivial": bool(ft) if stf == "ok" else None, "pass1": {"ok": p1} if st1 == "ok" else {"err": "raises"}}))
+        ctx.count("drop_point answers: " + ("closed slice" if not sl.open_start and not sl.open_end else "open slice")
+                  + (", first pass" if st1 == "ok" and p1 == dp else ", second pass"))
+
+    def marked(node, schema):
+        """a copy of `node` carrying one mark (own random stream), or None"""
+        if not schema.marks or rng2.random() > 0.3:
+            return None
+        mt = rng2.choice(list(schema.marks.values()))
+        st_, mk = outcome(lambda: mt.create(gen.gen_attrs(rng2, mt)))
+        if st_ != "ok":
+            return None
+        return node.mark(mk.add_to_set(node.marks))
 
     fam = schemas.family()
     aim = aimed()
@@ -248,8 +334,13 @@ def run(ctx):
                         if not (0 <= jp <= size):
                             ctx.violation("join_point-range", "join_point returned an out-of-range position", dict(replay, got=jp))
                         else:
-                            perform(ctx, info, d, "join", lambda tr: tr.join(jp), dict(replay, join_at=jp), reqs, metas, bundled,
-                                    build={"k": "join", "pos": jp, "depth": 1})
+                            done = perform(ctx, info, d, "join", lambda tr: tr.join(jp), dict(replay, join_at=jp), reqs, metas, bundled,
+                                           build={"k": "join", "pos": jp, "depth": 1})
+                            # `joinPoint_canJoin`: can_join is True at the join point; then `canJoin_join_applies`' guards
+                            stj, cj = outcome(lambda: can_join(d, jp))
+                            reqs.append({"op": "insGuard", "k": "join", "s": info.lean_id, "doc": info.node(d), "p": jp})
+                            metas.append(("insguard join", dict(replay, join_at=jp),
+                                          {"good": done is not None, "canJoin": {"ok": cj} if stj == "ok" else {"err": "raises"}}))
                 # ---- lift_target / lift, find_wrapping / wrap
                 for q in (pos, min(size, pos + rng.randint(1, 6))):
                     if q not in aligned and q != pos:
@@ -312,6 +403,11 @@ def run(ctx):
                             stc, err = outcome(res.doc.check)
                             if stc != "ok":
                                 ctx.violation("insert_point-invalid", f"insertion at the returned point gives an invalid document: {err}", dict(replay, point=ip))
+                    if node is not None and 0 <= ip <= size:
+                        ins_tie(info, d, ip, node, replay)
+                        mk = marked(node, schema)
+                        if mk is not None:
+                            ins_tie(info, d, ip, mk, dict(replay, marked=True))
                 # ---- drop_point
                 sl = gen.random_slice(rng, docs)
                 st, dp = outcome(lambda: drop_point(d, pos, sl))
@@ -322,15 +418,40 @@ def run(ctx):
                 elif dp is not None:
                     if not (0 <= dp <= size):
                         ctx.violation("drop_point-range", "drop_point returned an out-of-range position", dict(replay, got=dp))
-                    elif bundled and sl.size:
+                    elif sl.size:
                         tr = Transform(d)
                         sta, val, added = ops.run_op(tr, lambda tr_: tr_.replace(dp, dp, sl))
-                        if sta != "ok":
-                            ctx.violation("drop_point-fails", f"inserting the slice at the returned position raised {val}", dict(replay, point=dp))
-                        else:
-                            stc, err = outcome(tr.doc.check)
-                            if stc != "ok":
-                                ctx.violation("drop_point-invalid", f"inserting the slice at the returned point gives an invalid document: {err}", dict(replay, point=dp))
+                        if bundled:
+                            if sta != "ok":
+                                ctx.violation("drop_point-fails", f"inserting the slice at the returned position raised {val}", dict(replay, point=dp))
+                            else:
+                                stc, err = outcome(tr.doc.check)
+                                if stc != "ok":
+                                    ctx.violation("drop_point-invalid", f"inserting the slice at the returned point gives an invalid document: {err}", dict(replay, point=dp))
+                        drop_tie(info, d, pos, dp, sl, replay, sta, tr)
+    # ---- aimed probes of the insertion guards (own random stream): content `image? text* image`
+    info = aim[-1]
+    ctx.driver.add_schema(info)
+    img = info.schema.nodes["image"]
+    sch = info.schema
+    hand = [sch.node("doc", None, [sch.node("p", None, [sch.text("ab"), sch.node("image")])]),
+            sch.node("doc", None, [sch.node("p", None, [sch.node("image")]),
+                                   sch.node("p", None, [sch.text("a", [sch.mark("em")]), sch.text("bc"), sch.node("image")])])]
+    for d in hand + [gen.gen_doc(rng2, sch, budget=rng2.choice([8, 16])) for _ in range(ctx.budget(3, 10))]:
+        for pos in gen.aligned_positions(d):
+            base = {"schema": info.name, "doc": d.to_json(), "pos": pos, "aimed": True}
+            st, ip = outcome(lambda: insert_point(d, pos, img))
+            tie(info, d, "insertPoint", {"pos": pos, "ty": info.nid["image"]}, dict(base, helper="insert_point", type="image"), st, ip)
+            if st == "ok" and ip is not None:
+                ins_tie(info, d, ip, img.create(), dict(base, helper="insert_point", type="image"))
+            sl = Slice(Fragment.from_(img.create()), 0, 0)
+            st, dp = outcome(lambda: drop_point(d, pos, sl))
+            tie(info, d, "dropPoint", {"pos": pos, "slice": info.slice(sl)}, dict(base, helper="drop_point", slice=sl.to_json()), st, dp)
+            if st == "ok" and dp is not None:
+                tr = Transform(d)
+                sta, val, added = ops.run_op(tr, lambda tr_: tr_.replace(dp, dp, sl))
+                drop_tie(info, d, pos, dp, sl, dict(base, helper="drop_point", slice=sl.to_json()), sta, tr)
+            ctx.count("aimed insertion probes")
     flush()
     return ctx.finish(
         rule="a case is (schema, valid document, pair-aligned position) at which every structure helper is asked (can_split depth 1-2, "
